@@ -288,6 +288,8 @@ class UnitBench:
         self.recvd = 0        # bytes of stream B handed out by receive()
         self.sent = 0         # bytes of stream A claimed by send calls
         self.drained = 0      # bytes of stream A read by the peer
+        self.cut = False      # a send ended abnormally: what it wrote is unknown ...
+        self.undef = False    # ... and another send was started after it: offsets of stream A unknown
         self.errors: list[str] = []
 
     def emit(self, **ev: Any) -> None:
@@ -314,6 +316,7 @@ class UnitBench:
     async def _send(self, t: int, n: int) -> None:
         payload = pattern_fast("A", self.sent, n)
         self.sent += n
+        self.undef = self.undef or self.cut
         self.emit(ev="sstart", s="A", t=t, n=n)
         try:
             await self.stream.send(payload)
@@ -324,6 +327,10 @@ class UnitBench:
                 self.errors.append(repr(exc))
             if r == "busy":
                 self.sent -= n
+            else:
+                self.cut = True
+        if r == "ok" and self.stream._closed:
+            self.cut = True
         self.last[t] = {"r": r, "off": 0, "len": 0}
         self.emit(ev="send", s="A", t=t, res=r)
 
@@ -401,7 +408,7 @@ class UnitBench:
                 return "kernel holds fewer bytes"
             got = self.tp.env_drain(n)
             off, match = locate("A", got, self.drained, self.sent)
-            if off == self.drained and match:
+            if self.undef or (off == self.drained and match):
                 self.drained += len(got)
             self.emit(ev="rstart", s="B", t=0, mb=n)
             self.emit(ev="rend", s="B", t=0, res="ok", off=off, len=len(got), match=match)
